@@ -190,6 +190,7 @@ func TestC13(t *testing.T) {
 		}
 
 		// every popped checkpoint: serialize, new process, resume, read the remainder
+		twice := rapid.IntRange(0, 2).Draw(rt, "resumetwice") == 0
 		checkResume := func(pc poppedCk) bool {
 			var gb bytes.Buffer
 			if err := gob.NewEncoder(&gb).Encode(pc.c); err != nil {
@@ -205,38 +206,49 @@ func TestC13(t *testing.T) {
 			if c2.SourceCheckpoint != nil {
 				Ev.ProbeIf(c2.Offset > c2.SourceCheckpoint.Offset, "checkpoint_with_source_lagging(delta>0)")
 			}
-			rc2, err := openStream(stream, slice2)
-			if err != nil {
-				Violation(rt, "C13/reopen-failed", "%v", err)
-				return false
+			// the deserialized checkpoint is used for two restarts in a row (a retry after the first
+			// restart lost its connection, say): it must be as good the second time
+			uses := 1
+			if twice {
+				uses = 2
 			}
-			var rerr error
-			p := Recover(func() { rerr = rc2.Resume(c2) })
-			if p != "" || rerr != nil {
-				Violation(rt, "C13/resume-failed", "Resume from checkpoint popped before message %d (offset %d): %v %s (%s)\n%v", pc.pos, c2.Offset, rerr, p, CompString(comp), sample())
-				return false
-			}
-			for i := pc.pos; i <= len(msgs); i++ {
-				var rerr error
-				p := Recover(func() { rerr = rc2.ReadMessage(got) })
-				if p != "" {
-					Violation(rt, "C13/read-panic", "after resume, ReadMessage %d panicked: %s", i, p)
+			for use := 1; use <= uses; use++ {
+				rc2, err := openStream(stream, slice2)
+				if err != nil {
+					Violation(rt, "C13/reopen-failed", "%v", err)
 					return false
 				}
-				if i == len(msgs) {
-					if errors.Cause(rerr) != io.EOF {
-						Violation(rt, "C13/resume-no-eof", "after resume at %d: end of stream expected, got %v", pc.pos, rerr)
+				var rerr error
+				p := Recover(func() { rerr = rc2.Resume(c2) })
+				if use == 2 {
+					Ev.Probe("same_deserialized_checkpoint_resumed_from_twice")
+				}
+				if p != "" || rerr != nil {
+					Violation(rt, "C13/resume-failed", "Resume from checkpoint popped before message %d (offset %d): %v %s (%s)\n%v", pc.pos, c2.Offset, rerr, p, CompString(comp), sample())
+					return false
+				}
+				for i := pc.pos; i <= len(msgs); i++ {
+					var rerr error
+					p := Recover(func() { rerr = rc2.ReadMessage(got) })
+					if p != "" {
+						Violation(rt, "C13/read-panic", "after resume, ReadMessage %d panicked: %s", i, p)
 						return false
 					}
-					break
-				}
-				if rerr != nil {
-					Violation(rt, "C13/resume-read-error", "resumed before message %d (checkpoint offset %d), reading message %d: %v (%s)\n%v", pc.pos, c2.Offset, i, rerr, CompString(comp), sample())
-					return false
-				}
-				if !proto.Equal(got, msgs[i]) {
-					Violation(rt, "C13/resume-wrong-message", "resumed before message %d (checkpoint offset %d): message %d differs (payload %d vs %d bytes) (%s)\n%v", pc.pos, c2.Offset, i, len(got.Data), len(msgs[i].Data), CompString(comp), sample())
-					return false
+					if i == len(msgs) {
+						if errors.Cause(rerr) != io.EOF {
+							Violation(rt, "C13/resume-no-eof", "after resume at %d: end of stream expected, got %v", pc.pos, rerr)
+							return false
+						}
+						break
+					}
+					if rerr != nil {
+						Violation(rt, "C13/resume-read-error", "resumed before message %d (checkpoint offset %d), reading message %d: %v (%s)\n%v", pc.pos, c2.Offset, i, rerr, CompString(comp), sample())
+						return false
+					}
+					if !proto.Equal(got, msgs[i]) {
+						Violation(rt, "C13/resume-wrong-message", "resumed before message %d (checkpoint offset %d): message %d differs (payload %d vs %d bytes) (%s)\n%v", pc.pos, c2.Offset, i, len(got.Data), len(msgs[i].Data), CompString(comp), sample())
+						return false
+					}
 				}
 			}
 			return true
